@@ -6,7 +6,7 @@ from . import _w
 PROP = "C04"
 WEIGHTS = {"swap": 18, "swap_window": 2, "swap_malformed": 1, "provide": 16, "provide_first": 4, "withdraw": 36,
            "route": 4, "donate": 10, "lp_burn": 6, "lp_transfer": 4, "unauth": 0, "provide_malformed": 0,
-           "route_bad": 0, "intent": 0, "add_decimals": 0, "transfer": 0}
+           "route_bad": 0, "intent": 0, "add_decimals": 0, "transfer": 0, "withdraw_via_token": 5}
 
 
 def factory(w, a):
@@ -60,7 +60,10 @@ def run_shard(acc, prop, tier, seed, shard, nshards, **kw):
 def floors(acc, tier):
     msgs = _w.canary_floor(acc, CORR)
     _w.need(acc, msgs, "withdraw_ok", 3000)
-    rel = set(k.split("|")[5] for k in acc.classes if not k.startswith("edge|"))
+    _w.need(acc, msgs, "withdraw_via_other_token_err", 150)
+    if not any(k.startswith("via_token|") and k.endswith("|parked") for k in acc.classes):
+        msgs.append("no withdraw hook through another token while the pair held parked LP")
+    rel = set(k.split("|")[5] for k in acc.classes if not k.startswith(("edge|", "via_token|")))
     # (value per share never decreases, so S <= sqrt(r0*r1): S above both reserves is unreachable)
     for want in ("Svs_r:lt", "Svs_r:mid", "S<<rmax", "S>>rmin"):
         if not any(want in r for r in rel):
